@@ -115,4 +115,174 @@ theorem scheme_mem_trace (s : LState I String) (L : List Route)
   · simp only [hx, if_true, routesOfList_append, routesOfList_singleton, Trace.routes_mk,
       TInfo.routes, routesOfList_nil, List.append_nil, List.mem_append, key]
 
+def schemeLaws : MLaws (schemeOps I) :=
+  outerLaws IL Scheme.keysOf (Scheme.matchReq I) (Scheme.trace I)
+    (lSat IL Scheme.keysOf Scheme.accepts)
+    (fun L L' r q h => lSat_congr IL Scheme.keysOf Scheme.accepts L L' r q h)
+    (by
+      intro s L q r h hU
+      rw [scheme_match_eq s h.nodup, List.mem_append]
+      exact mem_lMatch IL Scheme.keysOf Scheme.accepts s L h hU q r)
+    (by
+      intro s L q h hU
+      rw [scheme_match_eq s h.nodup]
+      exact nodup_lMatch IL Scheme.keysOf Scheme.accepts
+        (singleAccept_of_singleKey Scheme.keysOf _ scheme_singleKey) s L h hU q)
+    (fun s L q r h hU => scheme_mem_trace IL s L h hU q r)
+
+/-! ## MethodMatcher -/
+
+theorem flatMap_append_perm' {α β : Type} (l : List α) (f g : α → List β) :
+    (l.flatMap (fun a => f a ++ g a)).Perm (l.flatMap f ++ l.flatMap g) := by
+  induction l with
+  | nil => simp
+  | cons a l ih =>
+    simp only [List.flatMap_cons]
+    refine (List.Perm.append_left _ ih).trans ?_
+    simp only [List.append_assoc]
+    refine List.Perm.append_left _ ?_
+    rw [← List.append_assoc, ← List.append_assoc]
+    exact List.Perm.append_right _ List.perm_append_comm
+
+/-- the `methods.get(request.method())` part of `MethodMatcher::match_request` -/
+def Method.onlyPart (I : MOps) (q : Req) (e : MKey × I.M) : List Route :=
+  match e.1 with
+  | .only m => if m == q.methodStr then I.matchReq e.2 q else []
+  | .exclude _ => []
+
+/-- the `exclude_methods` loop of `MethodMatcher::match_request` -/
+def Method.exclPart (I : MOps) (q : Req) (e : MKey × I.M) : List Route :=
+  match e.1 with
+  | .exclude ms => if !ms.contains q.methodStr then I.matchReq e.2 q else []
+  | .only _ => []
+
+theorem method_split (q : Req) (e : MKey × I.M) :
+    (if Method.accepts e.1 q then I.matchReq e.2 q else []) =
+      Method.onlyPart I q e ++ Method.exclPart I q e := by
+  unfold Method.accepts Method.onlyPart Method.exclPart
+  cases e.1 <;> simp
+
+theorem method_onlyPart_eq (m : List (MKey × I.M)) (hn : (akeys m).Nodup) (q : Req) :
+    m.flatMap (Method.onlyPart I q) =
+      (match alookup (MKey.only q.methodStr) m with | some b => I.matchReq b q | none => []) := by
+  rw [← flatMap_select m hn (MKey.only q.methodStr) (fun b => I.matchReq b q)]
+  congr 1; funext e
+  unfold Method.onlyPart
+  cases hk : e.1 with
+  | only x =>
+    by_cases h : x = q.methodStr
+    · simp [h]
+    · simp [h]
+  | exclude ms => simp
+
+theorem method_match_perm (s : LState I MKey) (hn : (akeys s.map).Nodup) (q : Req) :
+    (Method.matchReq I s q).Perm (I.matchReq s.any q ++ lMatchMap I Method.accepts s.map q) := by
+  have h1 : lMatchMap I Method.accepts s.map q =
+      s.map.flatMap (fun e => Method.onlyPart I q e ++ Method.exclPart I q e) := by
+    unfold lMatchMap; congr 1; funext e; exact method_split q e
+  have h2 : Method.matchReq I s q =
+      I.matchReq s.any q ++ (s.map.flatMap (Method.onlyPart I q) ++ s.map.flatMap (Method.exclPart I q)) := by
+    unfold Method.matchReq
+    rw [method_onlyPart_eq s.map hn q]
+    simp only
+    have : (fun e : MKey × I.M =>
+        match e.1 with
+        | .exclude ms => if (!ms.contains q.methodStr) = true then I.matchReq e.2 q else []
+        | .only _ => []) = Method.exclPart I q := by
+      funext e; unfold Method.exclPart; rfl
+    rw [this]
+    cases alookup (MKey.only q.methodStr) s.map <;> simp
+  rw [h1, h2]
+  exact List.Perm.append_left _ (flatMap_append_perm' _ _ _).symm
+
+theorem method_singleAccept : SingleAccept Method.keysOf Method.accepts := by
+  intro r q k1 k2 h1 h2 a1 a2
+  unfold keysL Method.keysOf at h1 h2
+  cases hm : r.methods with
+  | none => simp [hm] at h1
+  | some ms =>
+    by_cases he : ms.isEmpty = true
+    · simp [hm, he] at h1
+    · by_cases hx : r.excludeMethods.isSome = true
+      · simp [hm, he, hx] at h1 h2; rw [h1, h2]
+      · simp only [hm, he, hx, if_false, Option.getD_some, List.mem_map, Bool.false_eq_true] at h1 h2
+        obtain ⟨m1, _, e1⟩ := h1
+        obtain ⟨m2, _, e2⟩ := h2
+        subst e1; subst e2
+        simp only [Method.accepts, beq_iff_eq] at a1 a2
+        rw [a1, a2]
+
+theorem method_mem_trace (s : LState I MKey) (L : List Route)
+    (h : LRepr IL Method.keysOf s L) (hU : UIds L) (q : Req) (r : Route) :
+    r ∈ routesOfList (Method.trace I s q) ↔ r ∈ Method.matchReq I s q := by
+  rw [(method_match_perm s h.nodup q).mem_iff, List.mem_append,
+    ← mem_trace_buckets IL Method.keysOf Method.accepts s L h hU q r,
+    ← mem_any_trace IL Method.keysOf s L h hU q r]
+  unfold Method.trace
+  simp only [routesOfList_append, List.mem_append, mem_routesOfList_filterMap]
+  have hlast : ∀ b : Bool, r ∈ routesOfList
+      (if b = true then [Trace.mk true false 0 (.other "method") []] else []) ↔ False := by
+    intro b; cases b <;> simp [routesOfList_singleton, Trace.routes_mk, TInfo.routes]
+  rw [hlast]
+  constructor
+  · rintro (((hr | ⟨e, he, t, ht, hr⟩) | ⟨e, he, t, ht, hr⟩) | hf)
+    · exact Or.inl hr
+    · right
+      refine ⟨e, he, ?_⟩
+      cases hk : e.1 with
+      | only x => simp [hk] at ht
+      | exclude ms =>
+        simp only [hk, Option.some.injEq] at ht
+        cases hc : ms.contains q.methodStr
+        · simp only [hc, Bool.not_false, if_true] at ht
+          subst ht
+          simp only [Trace.routes_mk, TInfo.routes, List.nil_append] at hr
+          exact ⟨by simp [Method.accepts, hc], hr⟩
+        · simp only [hc, Bool.not_true, Bool.false_eq_true, if_false] at ht
+          subst ht
+          simp [Trace.routes_mk, TInfo.routes] at hr
+    · right
+      refine ⟨e, he, ?_⟩
+      cases hk : e.1 with
+      | exclude ms => simp [hk] at ht
+      | only x =>
+        simp only [hk, Option.some.injEq] at ht
+        cases hc : x == q.methodStr
+        · simp only [hc, Bool.false_eq_true, if_false] at ht
+          subst ht
+          simp [Trace.routes_mk, TInfo.routes] at hr
+        · simp only [hc, if_true] at ht
+          subst ht
+          simp only [Trace.routes_mk, TInfo.routes, List.nil_append] at hr
+          exact ⟨by simp [Method.accepts, hc], hr⟩
+    · exact hf.elim
+  · rintro (hr | ⟨e, he, ha, hr⟩)
+    · exact Or.inl (Or.inl (Or.inl hr))
+    · left
+      cases hk : e.1 with
+      | only x =>
+        right
+        simp only [Method.accepts, hk] at ha
+        exact ⟨e, he, _, by simp only [hk]; rfl, by
+          simp only [ha, if_true, Trace.routes_mk, TInfo.routes, List.nil_append]; exact hr⟩
+      | exclude ms =>
+        left; right
+        simp only [Method.accepts, hk] at ha
+        exact ⟨e, he, _, by simp only [hk]; rfl, by
+          simp only [ha, if_true, Trace.routes_mk, TInfo.routes, List.nil_append]; exact hr⟩
+
+def methodLaws : MLaws (methodOps I) :=
+  outerLaws IL Method.keysOf (Method.matchReq I) (Method.trace I)
+    (lSat IL Method.keysOf Method.accepts)
+    (fun L L' r q h => lSat_congr IL Method.keysOf Method.accepts L L' r q h)
+    (by
+      intro s L q r h hU
+      rw [(method_match_perm s h.nodup q).mem_iff, List.mem_append]
+      exact mem_lMatch IL Method.keysOf Method.accepts s L h hU q r)
+    (by
+      intro s L q h hU
+      rw [(method_match_perm s h.nodup q).nodup_iff]
+      exact nodup_lMatch IL Method.keysOf Method.accepts method_singleAccept s L h hU q)
+    (fun s L q r h hU => method_mem_trace IL s L h hU q r)
+
 end Rio.Router
